@@ -255,7 +255,7 @@ Section Geom.
 
   (* what the property asks of the geometry of a way whose resolvable coordinates are c *)
   Definition way_geometry_spec (w : way) (c : list pt) (g : geom) : Prop :=
-    if w_area w
+    if way_area w
     then exists ring, g = GPoly [ring] /\ ring_closed ring = true /\ 0 <= shoelace ring /\
                       ring_orientation ring <> -1 /\
                       (ring = spec_closed c \/ ring = rev (spec_closed c))
@@ -277,7 +277,7 @@ Section Geom.
       unfold way_feature, way_line. fold (spec_coords d w). fold c.
       destruct (List.length c <=? 1)%nat eqn:Hle; [apply Nat.leb_le in Hle; lia|].
       left. reflexivity.
-    - cbn [f_geom mk_feature]. unfold way_geometry_spec, way_geom. destruct (w_area w); [|reflexivity].
+    - cbn [f_geom mk_feature]. unfold way_geometry_spec, way_geom. destruct (way_area w); [|reflexivity].
       destruct (to_ring_closed c Hl) as [Hc [Hl2 Heq]].
       destruct (reorient_ccw (to_ring c) Hc Hl2) as [Hpos [Hcl [Hno Hdir]]].
       exists (reorient_outer (to_ring c)). rewrite <- Heq. repeat split; assumption.
@@ -296,7 +296,7 @@ Section Geom.
     destruct (List.length (spec_coords d w) <=? 1)%nat eqn:Hle; [discriminate|].
     apply Nat.leb_gt in Hle. injection Hwf as <-.
     split; [lia|]. split; [reflexivity|]. split; [reflexivity|].
-    cbn [f_geom mk_feature]. unfold way_geometry_spec, way_geom. destruct (w_area w); [|reflexivity].
+    cbn [f_geom mk_feature]. unfold way_geometry_spec, way_geom. destruct (way_area w); [|reflexivity].
     assert (Hl : (2 <= List.length (spec_coords d w))%nat) by lia.
     destruct (to_ring_closed _ Hl) as [Hc [Hl2 Heq]].
     destruct (reorient_ccw _ Hc Hl2) as [Hpos [Hcl [Hno Hdir]]].
